@@ -19,9 +19,14 @@ denominator `d^(2T)` resp. `d^(2T+1)` with an end vector) and compares:
 * likelihood ≥ Viterbi probability (with the 1e-3 slack of the fast exponential);
 * NaN, +inf, a panic or a hang are violations.
 
-For `optend` the code mirror `viterbi` (which ignores the end vector like the Rust code) is evaluated as well:
-an observation that breaks the property but agrees with that mirror is reported as
-`reject viterbi-ignores-end` (the recorded known finding); anything else is a different rejection. -/
+The code mirror `viterbi` (matrices without end term, end term on the last column iff the model declares an
+end vector, traceback with the last maximum winning) is evaluated as well: its value must equal the oracle's
+(theorem `viterbi_code_value_eq_max`; a mismatch is a driver defect, `bad-op`); a returned path that differs from
+the mirror's path is the tag `drift` (a tie resolved differently in f64), never a violation.  Any deviation on a
+model with an end vector is a plain violation (`viterbi-path-not-optimal`, `viterbi-value`, …) — the former
+special classification of the repaired defect C14-viterbi-ignores-end is gone.  Tag `endflip`: the end term
+changes the arg-max (the path the algorithm returns *without* the end term is not optimal with it) — the
+regression guard for that defect; `endflip-prefix` when the two paths differ before the last state as well. -/
 namespace RbV.Drv.C14
 open RbV.Codec RbV.FloatParse RbV.Hmm
 
@@ -74,7 +79,8 @@ def Case.model (c : Case) : Hmm :=
     emit := fun s o => (c.emit.getD s []).getD o 0
     fin := match c.fin with
       | some f => fun s => f.getD s 0
-      | none => fun _ => 1 }
+      | none => fun _ => 1
+    hasEnd := c.fin.isSome }
 
 /-- value of a numerator over `d^e` as a float -/
 def ratio (num d e : Nat) : Float := Float.ofNat num / Float.ofNat (d ^ e)
@@ -127,16 +133,12 @@ def verdict (toks : List String) (out : String) : String :=
       let pathOpt := nearMax jp vE.2
       let valOk := valueOk lv jp c.d e 1e-9
       let vm := viterbi m c.obs
-      if !(pathOpt && valOk) then
-        -- does the observation at least agree with the code mirror that ignores the end vector?
-        let m0 := m.noEnd
-        let jp0 := joint m0 c.obs path
-        if c.fin.isSome && nearMax jp0 vm.2 && valueOk lv jp0 c.d (2 * T) 1e-9 then
-          s!"reject viterbi-ignores-end path-joint={fshow (ratio jp c.d e)} max={fshow (ratio vE.2 c.d e)} reported={fshow (Float.exp lv)} likelihood={fshow (ratio lik c.d e)}"
-        else if !pathOpt then
-          s!"reject viterbi-path-not-optimal joint={fshow (ratio jp c.d e)} max={fshow (ratio vE.2 c.d e)}"
-        else s!"reject viterbi-value joint-of-path={fshow (ratio jp c.d e)} reported={fshow (Float.exp lv)}"
-      else
+      -- self-check (theorem viterbi_code_value_eq_max): never expected to fire
+      if vm.2 ≠ vE.2 then "bad-op model-inconsistent-viterbi" else
+      if !pathOpt then
+        s!"reject viterbi-path-not-optimal joint={fshow (ratio jp c.d e)} max={fshow (ratio vE.2 c.d e)} reported={fshow (Float.exp lv)}" else
+      if !valOk then
+        s!"reject viterbi-value joint-of-path={fshow (ratio jp c.d e)} reported={fshow (Float.exp lv)}" else
       if !(Float.exp lv ≤ Float.exp lf * (1.0 + 2e-3)) then
         s!"reject likelihood-below-viterbi vit={fshow (Float.exp lv)} fwd={fshow (Float.exp lf)}" else
       let nt := T ≥ 2 && c.S ≥ 2 && lik > 0
@@ -145,6 +147,13 @@ def verdict (toks : List String) (out : String) : String :=
         ++ (if path ≠ vm.1 then " drift" else "")
         ++ (if jp ≠ vE.2 then " near-tie" else "")
         ++ (if c.d = 1 then " zero-one" else "")
+        ++ (if c.fin.isSome then
+              -- what the algorithm returns when the end term is left out (the repaired defect)
+              let p0 := (viterbi m.noEnd c.obs).1
+              if joint m c.obs p0 < vE.2 then
+                (if p0.dropLast ≠ vm.1.dropLast then " endflip endflip-prefix" else " endflip")
+              else ""
+            else "")
       "ok" ++ tags
 
 end RbV.Drv.C14
